@@ -95,6 +95,9 @@ def check_docs(chk, label, cases, obs, metas=None):
     return n
 
 
+ODD_SUFFIX = "$9-x_$"
+
+
 def run(tier):
     chk = Check("C03", tier)
     rng = random.Random(common.seed())
@@ -142,11 +145,18 @@ def run(tier):
         chk.add_tlc(rf)
         fc = [progs.harness_case(c["prog"], style=i % 4, want={"doc": True})[0] for i, c in enumerate(rf.cases)]
         nontrivial += check_docs(chk, "family-" + f, fc, run_oalv_parallel("compile", fc, jobs=8))
+        if f in ("schemas", "recinst"):
+            # the same members with every declared name - @references, whose names are component keys, included - respelled
+            # with the other characters an identifier may contain ($, -, _, digits)
+            fr = [progs.harness_case(progs.rename_consistently(c["prog"], suffix=ODD_SUFFIX, refs=True), style=i % 4, want={"doc": True})[0] for i, c in enumerate(rf.cases)]
+            nontrivial += check_docs(chk, "family-" + f + "-respelled", fr, run_oalv_parallel("compile", fr, jobs=8))
     # random composite programs
     import gen
     ps = gen.programs(common.seed() * 1000 + 3, 400 if tier == "quick" else 6000, p_bad=0.0)
     gc = [progs.harness_case(p, style=i % 4, want={"doc": True})[0] for i, p in enumerate(ps)]
     nontrivial += check_docs(chk, "random-composites", gc, run_oalv_parallel("compile", gc, jobs=8))
+    gr = [progs.harness_case(progs.rename_consistently(p, suffix=ODD_SUFFIX, refs=True), style=i % 4, want={"doc": True})[0] for i, p in enumerate(ps[:len(ps) // 2])]
+    nontrivial += check_docs(chk, "random-composites-respelled", gr, run_oalv_parallel("compile", gr, jobs=8))
     B = progs.B
     texts = c04.rec_shapes() + [t for _, t in corpus.texts() if "use " not in t]
     single = [{"main": B + "m1.oal", "files": {B + "m1.oal": t}, "want": {"doc": True}} for t in texts]
